@@ -139,8 +139,10 @@ def cases(rng, tier, shard, nshards):
         elif u < 0.6:
             # the consequence clause: imag1 and imag12 of f(x + i h + j h), component by component, for the step sizes the
             # multicomplex method actually takes (tiny) and larger ones; unary functions, powers and quotients
-            f = (list(FUNCS) + ['pow2.5', 'pow3', 'pow-2', 'recip', 'x_over_1px2'])[(i + shard) % (len(FUNCS) + 5)]
+            f = (list(FUNCS) + ['pow2.5', 'pow3', 'pow-2', 'recip', 'x_over_1px2', 'pow3_np', 'pow-2_np', 'pow5_np'])[(i + shard) % (len(FUNCS) + 8)]
             x = draw_x(rng, f if f in FUNCS else 'powr')
+            if f in ('pow3', 'pow-2', 'recip', 'x_over_1px2', 'pow3_np', 'pow-2_np', 'pow5_np') and rng.random() < 0.5:
+                x = -x                   # (integer powers and quotients: negative bases are in the domain)
             if f in ('tanh', 'coth', 'sech', 'csch') and abs(x) > 300:
                 x = float(np.sign(x) * rng.uniform(0.2, 5))
             yield dict(kind='mc_components', f=f, x=x, hrel=float(10.0 ** rng.uniform(-15, -5)), as_array=bool(rng.random() < 0.3))
@@ -407,6 +409,9 @@ def run_case(case, ctx):
         h = hrel * (max(abs(x), 1e-3) if (abs(x) >= 1e-12 or x == 0.0) else abs(x))
         special = {'pow2.5': (lambda z: z ** 2.5, lambda t: m.power(t, m.mpf(2.5))), 'pow3': (lambda z: z ** 3, lambda t: t ** 3),
                    'pow-2': (lambda z: z ** -2, lambda t: t ** -2), 'recip': (lambda z: 1.0 / z, lambda t: 1 / t),
+                   # (integer exponents handed over as numpy integers)
+                   'pow3_np': (lambda z: z ** np.int64(3), lambda t: t ** 3), 'pow-2_np': (lambda z: z ** np.int32(-2), lambda t: t ** -2),
+                   'pow5_np': (lambda z: z ** np.arange(5, 6)[0], lambda t: t ** 5),
                    'x_over_1px2': (lambda z: z / (1.0 + z * z), lambda t: t / (1 + t * t))}
         if f in special:
             lib, g = special[f]
@@ -479,6 +484,12 @@ def run_case(case, ctx):
                     res = bic(x, h) ** bic(e, he)
                 elif pk == 'real_intvalued':
                     res = bic(x, h) ** (np.float64(e) if case.get('np_float') else float(e))
+                elif pk == 'int':
+                    # the same integer as a Python int or as a numpy integer scalar (an element of np.arange, np.int32 ...)
+                    ek = [int(e), int(e), np.int64(e), np.int32(e), np.arange(int(e), int(e) + 1)[0], np.int8(e)][int(abs(x) * 1000) % 6]
+                    if not isinstance(ek, int):
+                        ctx.count('integer_exponent_as_numpy_integer')
+                    res = bic(x, h) ** ek
                 else:
                     res = bic(x, h) ** e
         except Exception as exc:
